@@ -11,6 +11,9 @@ import (
 	"github.com/olive-io/bpmn/v2/pkg/event"
 	"github.com/olive-io/bpmn/v2/pkg/logic"
 	"github.com/olive-io/bpmn/v2/model"
+	"github.com/olive-io/bpmn/v2/pkg/clock"
+	"github.com/olive-io/bpmn/v2/pkg/timer"
+	"github.com/olive-io/bpmn/v2/pkg/tracing"
 
 	"verif/internal/drive"
 	"verif/internal/fw"
@@ -74,6 +77,12 @@ func c14Cases(tier string, seed uint64) []fw.Case {
 			}
 			rec(nil)
 		}
+	}
+	// mixed definition kinds, one of which can never be matched (a timer definition without date / cycle / duration)
+	for _, kind := range []string{"parallel", "plain"} {
+		c := c14Case{Level: "mixed", Kind: kind, Defs: 3, MaxLen: 6}
+		c.Name = "mixed/" + kind
+		cs = append(cs, fw.MkCase("mixed", &c))
 	}
 	// model level: the start-event consumer of package model (parallel-multiple start events), sharded by the first event
 	mlen := 8
@@ -435,6 +444,107 @@ func c14Process2(c *c14Case, env *fw.Env, v *fw.V) {
 	}
 }
 
+// c14Mixed: a catch event with a signal, a message and an unconfigured timer definition, instances built by the
+// chain model.New installs (timers first, plain wrapping for the rest). The timer definition can never be
+// matched: a parallel-multiple catch event never fires (its least-matched definition stays at 0), a plain
+// multiple one fires on every matching signal / message; both over all histories up to MaxLen.
+func c14Mixed(c *c14Case, v *fw.V) {
+	par := "false"
+	if c.Kind == "parallel" {
+		par = "true"
+	}
+	src := `<?xml version="1.0" encoding="UTF-8"?>
+<bpmn:definitions xmlns:bpmn="http://www.omg.org/spec/BPMN/20100524/MODEL" id="D" targetNamespace="http://bpmn.io/schema/bpmn">
+  <bpmn:process id="p" isExecutable="true">
+    <bpmn:startEvent id="start"><bpmn:outgoing>f1</bpmn:outgoing></bpmn:startEvent>
+    <bpmn:intermediateCatchEvent id="catch" parallelMultiple="` + par + `">
+      <bpmn:incoming>f1</bpmn:incoming><bpmn:outgoing>f2</bpmn:outgoing>
+      <bpmn:signalEventDefinition id="d_sig" signalRef="sig"/>
+      <bpmn:messageEventDefinition id="d_msg" messageRef="msg"/>
+      <bpmn:timerEventDefinition id="d_timer"/>
+    </bpmn:intermediateCatchEvent>
+    <bpmn:endEvent id="end"><bpmn:incoming>f2</bpmn:incoming></bpmn:endEvent>
+    <bpmn:sequenceFlow id="f1" sourceRef="start" targetRef="catch"/>
+    <bpmn:sequenceFlow id="f2" sourceRef="catch" targetRef="end"/>
+  </bpmn:process>
+  <bpmn:signal id="sig" name="sig"/><bpmn:message id="msg" name="msg"/>
+</bpmn:definitions>`
+	defs, err := schema.Parse([]byte(src))
+	if err != nil {
+		v.Inconclusive("parse", "%v", err)
+		return
+	}
+	el := &(*(*defs.Processes())[0].IntermediateCatchEvents())[0].CatchEvent
+	cls := "mixed-" + c.Kind
+	mk := func(k int) event.IEvent {
+		switch k {
+		case 0:
+			return event.NewSignalEvent("sig")
+		case 1:
+			return event.NewMessageEvent("msg", nil)
+		}
+		return event.NewSignalEvent("nomatch")
+	}
+	n := 0
+	run := func(h []int) bool {
+		n++
+		ctx, cancel := context.WithCancel(clock.ToContext(context.Background(), clock.NewMock()))
+		defer cancel()
+		builder := event.DefinitionInstanceBuildingChain(
+			timer.EventDefinitionInstanceBuilder(ctx, event.NewFanOut(), tracing.NewTracer(ctx)),
+			event.WrappingDefinitionInstanceBuilder,
+		)
+		ok := true
+		func() {
+			defer func() {
+				if r := recover(); r != nil {
+					v.Violate("satisfier-panic", cls, "history %v: %v", h, r)
+					ok = false
+				}
+			}()
+			sat := logic.NewCatchEventSatisfier(el, builder)
+			for i, k := range h {
+				fired, chain := sat.Satisfy(mk(k))
+				switch {
+				case k == 2 && (fired || chain != logic.EventDidNotMatch):
+					v.Violate("nonmatching-fired", cls, "history %v: the non-matching event at %d reported matched=%v chain=%d", h, i, fired, chain)
+					ok = false
+				case k < 2 && chain == logic.EventDidNotMatch:
+					v.Violate("matching-not-matched", cls, "history %v: event %d at %d did not match its definition", h, k, i)
+					ok = false
+				case k < 2 && c.Kind == "parallel" && fired:
+					v.Violate("fired-more-than-least-matched", cls, "history %v: the parallel-multiple catch event fired at %d although its timer definition has never been matched", h, i)
+					ok = false
+				case k < 2 && c.Kind == "plain" && !fired:
+					v.Violate("plain-not-fired", cls, "history %v: the matching event at %d did not fire the (non-parallel) multiple catch event", h, i)
+					ok = false
+				}
+				if !ok {
+					return
+				}
+			}
+		}()
+		return ok
+	}
+	var rec func(h []int) bool
+	rec = func(h []int) bool {
+		if len(h) > 0 && !run(h) {
+			return false
+		}
+		if len(h) == c.MaxLen {
+			return true
+		}
+		for e := 0; e <= 2; e++ {
+			if !rec(append(append([]int(nil), h...), e)) {
+				return false
+			}
+		}
+		return true
+	}
+	rec(nil)
+	v.Add("histories", n)
+}
+
 // c14Recorder records every event a process is handed.
 type c14Recorder struct{ seen []event.IEvent }
 
@@ -588,7 +698,10 @@ func init() {
 				v.Inconclusive("descriptor", "%v", err)
 				return v
 			}
-			if cc.Level == "model" {
+			if cc.Level == "mixed" {
+				c14Mixed(&cc, v)
+				v.Nontrivial = v.Stats["histories"] > 1
+			} else if cc.Level == "model" {
 				c14Model(&cc, v)
 				v.Nontrivial = v.Stats["histories"] > 1
 			} else if cc.Level == "satisfier" {
@@ -603,7 +716,7 @@ func init() {
 			}
 			return v
 		},
-		Rule:       "satisfier level: CatchEventSatisfier (parallel-multiple and plain) and ThrowEventSatisfier driven directly with ALL event histories up to length 7 (quick) / 9 (thorough) over 1..4 signal definitions plus one non-matching event, each history on fresh satisfiers, counters checked at every prefix (fired <= least-matched count, fired == k when all matched k times, non-matching events change no later result - checked against a twin fed with the stripped history); process level: a (parallel-)multiple intermediate catch event with 1..3 definitions, all histories up to length 4/5, downstream request counted at quiescent points; the same with two activations (a second token is sent to the same catch event at a point the history chooses, events also arrive while no token waits: they must not count for the later token; a firing releases every waiting token), all histories up to length 5/6; model level: a parallel-multiple start event (2..3 signal definitions) inside model.Model, all histories up to length 8 / 9: the start-event consumer never replays more sets than the least-matched definition was matched, exactly k when all were matched k times, and a completed set is replayed as one buffered event of every other definition, none twice; a case = one shard of the enumeration (non-trivial when it contains > 1 history); distinct = descriptor hash; evidence 'measured.histories' is the number of histories executed",
+		Rule:       "satisfier level: CatchEventSatisfier (parallel-multiple and plain) and ThrowEventSatisfier driven directly with ALL event histories up to length 7 (quick) / 9 (thorough) over 1..4 signal definitions plus one non-matching event, each history on fresh satisfiers, counters checked at every prefix (fired <= least-matched count, fired == k when all matched k times, non-matching events change no later result - checked against a twin fed with the stripped history); process level: a (parallel-)multiple intermediate catch event with 1..3 definitions, all histories up to length 4/5, downstream request counted at quiescent points; the same with two activations (a second token is sent to the same catch event at a point the history chooses, events also arrive while no token waits: they must not count for the later token; a firing releases every waiting token), all histories up to length 5/6; mixed level: a catch event with a signal, a message and a never-matchable (unconfigured) timer definition built by the timer+wrapping chain, all histories up to length 6 (parallel-multiple: never fires; plain: fires on every matching event); model level: a parallel-multiple start event (2..3 signal definitions) inside model.Model, all histories up to length 8 / 9: the start-event consumer never replays more sets than the least-matched definition was matched, exactly k when all were matched k times, and a completed set is replayed as one buffered event of every other definition, none twice; a case = one shard of the enumeration (non-trivial when it contains > 1 history); distinct = descriptor hash; evidence 'measured.histories' is the number of histories executed",
 		Exhaustive: func(string) bool { return true },
 		Assumptions: []string{"the model-level oracle is the statement's counting rule plus: a completed set is replayed as one buffered event of every other definition, none twice"},
 		Batch:       4,
